@@ -270,6 +270,8 @@ class Ctx:
         self.replay = replay
         self.t0 = time.time()
         self.scratch = tempfile.mkdtemp(prefix=f"verif_{prop}_")
+        if replay is None:
+            shutil.rmtree(os.path.join(VERIF, "replays", prop), ignore_errors=True)
         self.states = 0
         self.transitions = 0
         self.evaluations = 0
@@ -323,6 +325,15 @@ class Ctx:
 
     def violation(self, clause, case):
         self.violations.append((clause, case))
+
+    def record(self, verdict, case):
+        """verdict from TLC: "ok", a clause, or a set of clauses (empty = ok)"""
+        if isinstance(verdict, list):
+            for v in verdict:
+                if v != "ok":
+                    self.violations.append((v, case))
+        elif verdict != "ok":
+            self.violations.append((verdict, case))
 
     def design_violation(self, module, cfg, r):
         """A TLC run on the spec alone found a counterexample: the design/oracle is inconsistent."""
@@ -422,9 +433,11 @@ def gen_states(ctx, module, cfg, coverage=True, timeout=900, dot=False):
 def pool_map(fn, items, procs=None, chunk=8):
     """Run fn over items in a fork pool (fn must be a module-level function)."""
     import multiprocessing as mp
+    from concurrent.futures import ProcessPoolExecutor
 
     procs = procs or NCPU
     if len(items) < 4 or procs == 1:
         return [fn(x) for x in items]
-    with mp.get_context("fork").Pool(procs) as p:
-        return p.map(fn, items, chunksize=chunk)
+    # executor workers are not daemonic, so a job may itself start processes (gaftools realign)
+    with ProcessPoolExecutor(max_workers=procs, mp_context=mp.get_context("fork")) as ex:
+        return list(ex.map(fn, items, chunksize=chunk))
